@@ -50,9 +50,9 @@ HARNESSES = {
     'kb_schedule_2v1a': {'kind': 'bounded', 'domain': '2 video + 1 audio samples', 'timeout': 600, 'tier': 'quick'},
     'kb_schedule_1v2a': {'kind': 'bounded', 'domain': '1 video + 2 audio samples', 'timeout': 600, 'tier': 'quick'},
     'kb_schedule_2v2a': {'kind': 'bounded', 'domain': '2 video + 2 audio samples', 'timeout': 1800, 'tier': 'thorough'},
-    'kb_days_to_ymd': {'kind': 'bounded', 'domain': 'day numbers 0..36524 (1970-01-01 .. 2069-12-31)', 'timeout': 900, 'tier': 'quick'},
-    'kb_frag_history': {'kind': 'bounded', 'domain': '3 writes (all u64 pts/dts, 1-byte payload) with an optional flush after each', 'timeout': 1200, 'tier': 'quick'},
-    'kb_frag_api': {'kind': 'bounded', 'domain': '3 writes (all u64 dts, 1-byte payload) with an optional flush after each, public API only, segment header fields read back', 'timeout': 1800, 'tier': 'quick'},
+    'kb_days_to_ymd': {'kind': 'bounded', 'domain': 'day numbers 0..1499 (1970-01-01 .. 1974-02-08, includes a leap day)', 'timeout': 900, 'tier': 'quick'},
+    'kb_frag_accept': {'kind': 'bounded', 'domain': '3 writes, all u64 DTS, public API only', 'timeout': 900, 'tier': 'quick'},
+    'kb_frag_flush': {'kind': 'bounded', 'domain': 'two one-sample fragments, all u64 DTS, public API only, mfhd/tfdt fields read back', 'timeout': 1200, 'tier': 'quick'},
     'kb_is_keyframe_h264': {'kind': 'bounded', 'domain': 'frames of 1..6 symbolic bytes, H.264 probe vs independent IDR scan', 'timeout': 900, 'tier': 'quick'},
     'kb_is_keyframe_h265': {'kind': 'bounded', 'domain': 'frames of 1..6 symbolic bytes, H.265 probe (panic freedom)', 'timeout': 900, 'tier': 'quick'},
     'kb_is_keyframe_av1_vp9': {'kind': 'bounded', 'domain': 'frames of 1..6 symbolic bytes, AV1 / VP9 probes (panic freedom)', 'timeout': 900, 'tier': 'quick'},
